@@ -1056,13 +1056,13 @@ macro_rules! agent_spec {
     };
 }
 
-agent_spec!(C01, "C01", run_c01, "exploration", 20_000, 2_000_000, PLAN_CASES_PER_POLICY * PLAN_CASES_PER_POLICY,
+agent_spec!(C01, "C01", run_c01, "exploration", 20_000, 1_000_000, PLAN_CASES_PER_POLICY * PLAN_CASES_PER_POLICY,
     "enumerated (8100 cases): for two policies at once (one with XML metacharacters in its name), every pair of {absent, installed with any subset of a 2+1 range universe} x {not a candidate, evaluation failed, evaluated to any subset} through the real reader -> compare -> update writer, applied to the router model: convergence, no stale policy, untouched on failure, read-back, idempotence. seeded: a history of 1-4 (thorough: 1-6) consecutive real agent runs against one FakeJunos + FakeIrrd, starting from an empty ephemeral instance; between runs the world mutates (routes appear/disappear, a family of an AS vanishes, set membership changes, policies lose the annotation / are deactivated / removed / renamed / get a new expression / are added); policy names occasionally contain XML metacharacters, quotes and non-ASCII; seeded virtual delays on every send and reply, seeded hash order, seeded IRR read segmentation. After every successful run: committed accept-set per family == reference set, final reject, no stale policy, read-back through the agent's own reader; finally one more run with unchanged inputs must succeed and change nothing. Non-trivial = at least one load-configuration was sent; distinct = distinct event-log hash");
-agent_spec!(C02, "C02", run_c02, "exploration", 20_000, 2_000_000, PLAN_CASES_PER_POLICY * PLAN_CASES_PER_POLICY,
+agent_spec!(C02, "C02", run_c02, "exploration", 20_000, 1_000_000, PLAN_CASES_PER_POLICY * PLAN_CASES_PER_POLICY,
     "enumerated: the 8100 (installed, evaluated) cases of C01, each planned update applied on its own to the fetched state. seeded: the C01 histories, one run in three with a NETCONF fault injected at a seeded request position (so that runs abort after any prefix of the update sequence); the oracle is evaluated on the model's working copy after every single load-configuration: every accepting term is restricted to inet or inet6, has at least one route-filter, all its route-filters belong to the reference set of that family, the policy ends in reject; element paths of every payload stay below configuration/policy-options/policy-statement; only the six expected operations are used and exactly the configured ephemeral instance is opened");
-agent_spec!(C03, "C03", run_c03, "fault_enumeration", 20_000, 2_000_000, 0,
+agent_spec!(C03, "C03", run_c03, "fault_enumeration", 20_000, 1_000_000, 0,
     "histories biased towards managed policies whose data is unobtainable: unknown as-set, error response (F / E / D) to the as-set members query, IRRd refusing the connection, annotations with the bgpfu-fltr prefix that do not parse; installed state present or absent, mutations make annotations unparseable between runs. Oracle: no update or delete names such a policy and its installed state is unchanged; deletes name only policies that are not marked as managed");
-agent_spec!(C04, "C04", run_c04, "fault_enumeration", 20_000, 2_000_000, 0,
+agent_spec!(C04, "C04", run_c04, "fault_enumeration", 20_000, 1_000_000, 0,
     "1-2 runs per history with 1-2 faults at seeded positions of the request sequence open -> get-config x2 -> load x N -> commit -> close-configuration -> close-session; fault kinds: rpc-error, error inside load-configuration-results, error followed by <ok/>, malformed reply, truncated reply, unknown message-id, another outstanding request's message-id, duplicated reply, close before the reply, close after the reply, and (non-fault) warning followed by <ok/>; reply delays let a failing load reply arrive after later loads were sent. Oracle on the per-session request log: commit only after open and every load were positively acknowledged and delivered, never after a failed step; fault => run fails; success => commit, close-configuration and close-session acknowledged");
-agent_spec!(C15, "C15", run_c15, "exploration", 20_000, 2_000_000, 0,
+agent_spec!(C15, "C15", run_c15, "exploration", 20_000, 1_000_000, 0,
     "1-5 (thorough: 1-10) managed policies of which some are unevaluable: unknown as-set, IRR error response, PeerAS, AS-path regular expression, community match; all hash orders. Oracle: the run succeeds, every evaluable policy reaches its reference set and is committed, the unevaluable ones are untouched. The violation class names the kind of unevaluable member present");
